@@ -136,6 +136,10 @@ def _directed(rng):
 def run(ctx):
     c07.install()  # ambient: every match_geometries call made by the task is judged by the C07 monitor
     rng = ctx.rng
+    from rv.props import concurrent_jobs
+
+    concurrent_jobs.run_some(ctx, "C08", quick=3, thorough=12)        # the same calls from a thread pool (rv/core/threads.py)
+    ctx.must_monitors.append("concurrent_calls")
     ctx.rule = ("(vocabulary, clips with annotated / predicted sound events placed overlapping, shifted, disjoint, far or without geometry) as a JSON spec; "
                 "non-trivial = some evaluated clip has events on both sides; distinct = distinct spec")
     ctx.assumptions += ["vocabularies of >= 2 tags (single-tag vocabulary is a directed case / open finding); at least one evaluated sound event overall",
